@@ -166,6 +166,7 @@ class Driver:
                 elif o[0] == "stop":
                     in_tick = False
         self.pending, self.in_tick = dict(pending), in_tick
+        self.last_tick_time = max([o[1] for (_, _, outs) in self.events for o in outs if o[0] == "tickstart"] + [self.initial_guess])
         return in_tick
 
 
@@ -175,7 +176,7 @@ def gen_script(rng, conns, comps, n_events, p_interrupt=0.25, p_bad=0.05, p_exc=
     def script(drv):
         r = rng.randrange(0, 5) * 2
         yield ("start", r)
-        drv.pending, drv.in_tick = {}, False
+        drv.pending, drv.in_tick, drv.last_tick_time = {}, False, drv.initial_guess
         for _ in range(n_events):
             # mostly nanoseconds; now and then an answer (or the next interrupt) takes seconds of real time
             r += (7_000_000_000 if rng.random() < 0.03 else rng.choice([0, 0, 2, 10, 1000])) if real_cost else 0
@@ -185,7 +186,12 @@ def gen_script(rng, conns, comps, n_events, p_interrupt=0.25, p_bad=0.05, p_exc=
                 yield ("interrupt", r, rng.choice(comps))
             elif x < p_interrupt + p_bad:
                 c = rng.choice(comps + [max(comps) + 1])
-                yield ("output", r, c, rng.choice([drv.initial_guess, 0, 7]), {1: 5}, None)
+                # a foreign / duplicate / wrongly timed answer -- now and then one that asks to be called back (a redelivered
+                # stale answer does): what is rejected must leave no callback behind either
+                # (never in the past of the tick that is running: an answer the ticker does accept -- a component answering before it was
+                # asked -- is then a device asking for a legitimate callback)
+                yield ("output", r, c, rng.choice([drv.initial_guess, 0, 7]), {1: 5},
+                       rng.choice([None, None, drv.last_tick_time + 4, drv.last_tick_time + 40, drv.last_tick_time + 2000]))   # (even: whole ns at speed 2)
             elif x < p_interrupt + p_bad + p_exc and pend:
                 yield ("exception", r, rng.choice(pend))
                 return
